@@ -7,7 +7,7 @@
    AnnexBReader::accumulate by the correspondence check on generated NAL sequences x partitions x policies. *)
 From H264 Require Import Base.Prelude Base.Bits Model.AnnexB Model.Accum Model.Source Model.Sei Model.Avcc Model.Context Model.Pps Model.Driver
      Spec.AnnexBSpec Spec.AccumSpec Spec.Escape Spec.AvccSpec
-     Proofs.AnnexB_sem Proofs.AnnexB_compose Proofs.C08_proofs Proofs.C09_proofs Proofs.EscapeProofs Proofs.C12_frame Proofs.C12_compose Proofs.C12_pipeline Proofs.NalLevel
+     Proofs.AnnexB_sem Proofs.AnnexB_compose Proofs.C08_proofs Proofs.C09_proofs Proofs.EscapeProofs Proofs.C12_frame Proofs.C12_compose Proofs.C12_pipeline Proofs.C12_stream Proofs.C09_proofs Proofs.NalLevel
      Model.BitReader Model.Sps Model.Nal Model.Slice Spec.SyntaxSps Spec.SyntaxPps Spec.SyntaxSlice Proofs.SpsInv Proofs.PpsInv Proofs.SliceInv Proofs.C14_proofs.
 Local Open Scope N_scope.
 
@@ -142,6 +142,52 @@ Example C12_pipeline_ex :
   Forall (fun u : nat * list byte => exists p, unescape (skipn 1 (snd u)) = Some p)
          [(1%nat, [103; 66; 0; 0; 3; 1; 128]); (2%nat, [104; 206; 56; 128])].
 Proof. repeat constructor; eexists; reflexivity. Qed.
+
+(* From the structures to the context, through every layer at once: an SPS and a PPS referring to it, each encoded per
+   7.3.2.1 / 7.3.2.2, completed by rbsp trailing bits, escaped (7.4.1), given the header bytes 0x67 / 0x68, serialised as
+   an Annex B stream (any start-code lengths / zero padding) and pushed in ANY pieces into the pipeline starting from any
+   context of accepted SPSs, leave the context holding exactly those two structures (C04 + C05 + C02 + C15 + C08 + C01 + C19). *)
+Theorem C12_stream_sps_pps : forall x lists k1 p plists k2 n1 n2 t cs ctx0 pre,
+  let c1 := put_seq_param_set ctx0 x in
+  let u1 := nal_of_bits 103 (enc_sps x lists ++ trailing_bits k1) in
+  let u2 := nal_of_bits 104 (enc_pps p plists ++ trailing_bits k2) in
+  wf_sps x lists -> ctx_sps_ok ctx0 -> wf_pps c1 p plists ->
+  (8 | N.of_nat (length (enc_sps x lists ++ trailing_bits k1))) ->
+  (8 | N.of_nat (length (enc_pps p plists ++ trailing_bits k2))) ->
+  unit_ok u1 -> unit_ok u2 -> (t = 0%nat \/ 3 <= t)%nat ->
+  concat cs = annexb_encode [(n1, u1); (n2, u2)] t ->
+  ps_ctx (fst (pipeline_run ctx0 [] pre (map APush cs ++ [AReset]))) = put_pic_param_set c1 p.
+Proof. exact stream_sps_pps_context. Qed.
+Print Assumptions C12_stream_sps_pps.
+
+(* non-vacuity: every hypothesis of C12_stream_sps_pps holds of the High 4:4:4 SPS and the slice-group / scaling-list PPS
+   of C05_ex (2 and 3 trailing zero bits complete the bytes), so the theorem applies to every partition of their stream *)
+Definition C12_ex_sp := mk_sps 244 0 40 3 (mk_chroma_info YUV444 false 2 2 false None) 4 PocTypeTwo 4 false 3 2 Frames true None None.
+Definition C12_ex_p :=
+  mk_pps 7 3 true false (Some (SgExplicit 2 [0; 1; 2; 2; 1; 0; 0; 0; 1; 1; 2; 2])) 3 0 true 2 (-30)%Z 4%Z (-12)%Z true false true
+         (Some (mk_ext true (Some (mk_psm [SlUseDefault; SlNotPresent; SlNotPresent; SlNotPresent; SlNotPresent; SlNotPresent]
+                                          (Some [SlNotPresent; SlNotPresent; SlNotPresent; SlNotPresent; SlNotPresent; SlNotPresent]))) 12%Z)).
+Definition C12_ex_plists := Some [Some [(-8)%Z]; None; None; None; None; None; None; None; None; None; None; None].
+Example C12_stream_ex :
+  wf_sps C12_ex_sp None /\ ctx_sps_ok ctx_empty /\ wf_pps (put_seq_param_set ctx_empty C12_ex_sp) C12_ex_p C12_ex_plists /\
+  (8 | N.of_nat (length (enc_sps C12_ex_sp None ++ trailing_bits 2))) /\
+  (8 | N.of_nat (length (enc_pps C12_ex_p C12_ex_plists ++ trailing_bits 3))) /\
+  unit_ok (nal_of_bits 103 (enc_sps C12_ex_sp None ++ trailing_bits 2)) /\
+  unit_ok (nal_of_bits 104 (enc_pps C12_ex_p C12_ex_plists ++ trailing_bits 3)).
+Proof.
+  split; [|split; [exact ctx_empty_ok|split; [|split; [exists 9; vm_compute; reflexivity|split; [exists 16; vm_compute; reflexivity|]]]]].
+  - unfold wf_sps, u32v, C12_ex_sp. cbn -[N.lt N.le Z.le Z.lt N.pow]. repeat split; try lia; try reflexivity; try discriminate.
+  - unfold wf_pps, C12_ex_p, C12_ex_plists, C12_ex_sp.
+    cbn [pic_parameter_set_id pps_seq_parameter_set_id slice_groups num_ref_idx_l0_default_active_minus1
+      num_ref_idx_l1_default_active_minus1 weighted_bipred_idc pic_init_qp_minus26 pic_init_qs_minus26 chroma_qp_index_offset extension].
+    split; [lia|]. split; [lia|]. eexists. split; [vm_compute; reflexivity|].
+    cbn [chroma_info_ bit_depth_luma_minus8 wf_slice_group wf_pps_ext transform_8x8_mode_flag pic_scaling_matrix_
+         second_chroma_qp_index_offset psm4x4 psm8x8 length].
+    repeat match goal with |- _ /\ _ => apply conj end; try lia; try (vm_compute; reflexivity); try discriminate.
+    + repeat constructor; lia.
+    + repeat constructor; lia.
+  - split; (split; [discriminate|split; [vm_compute; discriminate|vm_compute; reflexivity]]).
+Qed.
 
 (* non-vacuity: two units, a 4-byte and a 3-byte start code with extra leading zeros, 3 trailing zeros,
    pushed in 1-, 2- and 5-byte pieces that cut start codes and units *)
